@@ -3,7 +3,7 @@
    Proofs/PrimProofs.v.  Models: Base/Prim.v (transliteration of
    common/construct_utils.py, common/utils.py, construct FormatField/CString/
    PrefixedArray, dwarf/structs.py _InitialLengthAdapter). *)
-From PV Require Import Base.Bytes Base.Outcome Base.Prim Spec.PrimSpec Proofs.PrimProofs Gen.PyFuns Gen.C16Prims Proofs.PyFunsC16.
+From PV Require Import Base.Bytes Base.Outcome Base.Prim Spec.PrimSpec Proofs.PrimProofs Gen.PyFuns Gen.C16Prims Proofs.PyFunsC16 Model.C16Run.
 
 (* every valid ULEB128 encoding, minimal or not, any length, any following bytes *)
 Theorem C16_uleb_valid : forall bs v tail,
@@ -226,6 +226,11 @@ Theorem C16_initial_length_truncated64 : forall le bs,
   (length bs < 8)%nat -> initial_length_decode le (int_encode le 4 0xffffffff ++ bs) = None.
 Proof. exact initial_length_truncated64. Qed.
 Print Assumptions C16_initial_length_truncated64.
+
+(* what the driver runs for blocks (announced length compared with what is left before counting) is the model *)
+Theorem C16_block_run_is_model : forall (len : dec Z) bs, block_decode_run len bs = block_decode len bs.
+Proof. exact block_decode_run_eq. Qed.
+Print Assumptions C16_block_run_is_model.
 
 (* non-vacuity: hypotheses are met by concrete non-trivial inputs *)
 Example C16_ex_nonminimal : uleb_valid [0x80; 0x81; 0x00] 128.
